@@ -112,7 +112,10 @@ def join_states(a, b, rel=True):
         s.heap[oid] = o
     pc = {}
     for at in set(a.pc) | set(b.pc):
-        pc[at] = alg_lub(a.pc.get(at, CONST), b.pc.get(at, CONST))
+        if at == "__tags__":
+            pc[at] = a.pc.get(at, frozenset()) | b.pc.get(at, frozenset())
+        else:
+            pc[at] = alg_lub(a.pc.get(at, CONST), b.pc.get(at, CONST))
     s.pc = pc
     s.facts = a.facts | b.facts
     return s
@@ -253,7 +256,7 @@ class Interp(object):
             # every path raises
             state.facts = callee_state.facts
             ret = AV(kind=K_NONE, const=None, note="no-normal-exit")
-            self.emit("exit", fr, fi.node, normal=False, state=None, ret=ret)
+            self.emit("exit", fr, fi.node, normal=False, state=None, ret=ret, is_entry=is_entry)
             return ret, state, flow
         ret = None
         exit_state = None
@@ -265,7 +268,7 @@ class Interp(object):
         state.heap.clear()
         state.heap.update(newheap)
         state.facts = exit_state.facts
-        self.emit("exit", fr, fi.node, normal=True, state=exit_state, ret=ret, n_returns=len(outs))
+        self.emit("exit", fr, fi.node, normal=True, state=exit_state, ret=ret, n_returns=len(outs), is_entry=is_entry)
         return ret, state, flow
 
     # ------------------------------------------------------------------ statements
@@ -366,7 +369,8 @@ class Interp(object):
         if isinstance(t, ast.Name):
             if inplace:
                 keep = new.replace(origin=cur.origin, kind=cur.kind if cur.kind != K_TOP else new.kind,
-                                   dtype=cur.dtype if cur.kind == K_ARRAY else new.dtype)
+                                   dtype=cur.dtype if cur.kind == K_ARRAY else new.dtype,
+                                   shape=cur.shape if (cur.kind == K_ARRAY and cur.shape is not None) else new.shape)
                 self.mutate(fr, cur, st, "augassign", lambda a, keep=keep: keep, strong=True)
                 fr.state.env[t.id] = weaken_av(keep, fr.state.pc)
             else:
@@ -374,7 +378,8 @@ class Interp(object):
         elif isinstance(t, ast.Attribute):
             if inplace:
                 keep = new.replace(origin=cur.origin, kind=cur.kind if cur.kind != K_TOP else new.kind,
-                                   dtype=cur.dtype if cur.kind == K_ARRAY else new.dtype)
+                                   dtype=cur.dtype if cur.kind == K_ARRAY else new.dtype,
+                                   shape=cur.shape if (cur.kind == K_ARRAY and cur.shape is not None) else new.shape)
                 self.mutate(fr, cur, st, "augassign", lambda a, keep=keep: keep, strong=True)
                 self.assign(t, keep, fr, st)
             else:
@@ -423,7 +428,7 @@ class Interp(object):
             pc = dict(st0.pc)
             if jump:
                 for at, c in condpc.items():
-                    pc[at] = alg_lub_pc(pc.get(at, CONST), c)
+                    pc_merge(pc, at, c)
             out.normal.pc = pc
         fr.state = out.normal
         return out
@@ -437,11 +442,13 @@ class Interp(object):
         if test.indef:
             for at in self.atoms:
                 pc[at] = TOPI
+        if test.tags:
+            pc["__tags__"] = test.tags
         return pc
 
     def push_pc(self, state, condpc):
         for at, c in condpc.items():
-            state.pc[at] = alg_lub_pc(state.pc.get(at, CONST), c)
+            pc_merge(state.pc, at, c)
 
     def refine(self, test, state, branch, fr):
         """Very small condition refinement: `x is None` / `x is not None` on plain names."""
@@ -501,7 +508,7 @@ class Interp(object):
             pc = dict(outer_pc)
             if last_flow.has_jump():
                 for at, c in trip_pc.items():
-                    pc[at] = alg_lub_pc(pc.get(at, CONST), c)
+                    pc_merge(pc, at, c)
             out.pc = pc
             if st.orelse:
                 fr.state = out
@@ -610,6 +617,8 @@ class Interp(object):
     def assign(self, target, v, fr, st, quiet=False):
         state = fr.state
         if isinstance(target, ast.Name):
+            if v.kind == K_SCALAR and v.sym is None and v.shape == () and v.dtype in ("int", "top", "real"):
+                v = v.replace(sym=LinExpr(fresh_atom("$v")))
             state.env[target.id] = weaken_av(v, state.pc)
         elif isinstance(target, (ast.Tuple, ast.List)):
             n = len(target.elts)
@@ -761,6 +770,8 @@ class Interp(object):
                 c = it.a(at)
             if c[0] not in ("const", "zero"):
                 trip[at] = c
+        if it.tags - frozenset(["loopvar"]):
+            trip["__tags__"] = it.tags
         if it.note == "range":
             e = AV(kind=K_SCALAR, dtype="int", shape=(), sym=LinExpr(fresh_atom("$i")), sign=it.sign,
                    alg=dict(it.alg), tags=it.tags | frozenset(["loopvar"]), indef=it.indef)
@@ -1030,7 +1041,7 @@ class Interp(object):
         pc = {}
         for v in vals[:-1]:
             for at, c in self.cond_pc(v).items():
-                pc[at] = alg_lub_pc(pc.get(at, CONST), c)
+                pc_merge(pc, at, c)
         return weaken_av(out.replace(const=_NOCONST), pc)
 
     def ex_Compare(self, e, fr):
@@ -1168,6 +1179,13 @@ class Interp(object):
             bound = self.bind(init, [oav] + list(args), kwargs, fr, node)
             self.call_function(init, bound, fr.state, fr, node, self_obj=o)
         return oav
+
+
+def pc_merge(pc, at, c):
+    if at == "__tags__":
+        pc[at] = pc.get(at, frozenset()) | c
+    else:
+        pc[at] = alg_lub_pc(pc.get(at, CONST), c)
 
 
 def alg_lub_pc(a, b):
